@@ -342,10 +342,10 @@ QUERIES = [
      "shards": {"quick": [{"nt": 3, "nf": 2, "order": [0, 1, 2], "fix_t0": r} for r in _rows(2)] + [{"nt": 3, "nf": 2, "order": [2, 0, 1], "fix_t0": r} for r in _rows(2) if r[0] >= 2]
                          + [{"nt": 2, "nf": 2, "order": [0, 1], "pad": 3}, {"nt": 2, "nf": 2, "order": [1, 0], "pad": -4}],
                 "thorough": [{"nt": 3, "nf": 3, "order": [0, 1, 2], "fix_t0": r, "f2max": 3} for r in _rows(3) if r[2] <= 2]
-                            + [{"nt": 3, "nf": 3, "order": [2, 1, 0], "fix_t0": r, "f2max": 3} for r in _rows(3) if r[2] <= 2 and r[0] >= 2]
+                            + [{"nt": 3, "nf": 3, "order": [2, 1, 0], "fix_t0": r, "f2max": 3} for r in _rows(3) if r[2] <= 2 and r[0] == 3]
                             + [{"nt": 3, "nf": 2, "order": [0, 1, 2], "fix_t0": r, "pad": pd} for r in _rows(2) for pd in (3, -5)]},
      "timeout": {"quick": 600, "thorough": 2400},
-     "bound": "role of every (target, file) in {none, input, output, both} and existence of every file symbolic; quick: 3 targets x 2 files, definition order 0,1,2 (all) and 2,0,1 (first target producing/self-looping on file 0); thorough: 3 x 3 (third file never both input and output of one target), definition order 0,1,2 and, for producing first targets, 2,1,0; "
+     "bound": "role of every (target, file) in {none, input, output, both} and existence of every file symbolic; quick: 3 targets x 2 files, definition order 0,1,2 (all) and 2,0,1 (first target producing/self-looping on file 0); thorough: 3 x 3 (third file never both input and output of one target), definition order 0,1,2 and, for first targets that read and write file 0, 2,1,0; "
               "extra shards put an unrelated healthy chain of 3-5 targets into the same workflow (defined before or after): 2 targets x 2 files (quick), 3 x 2 (thorough)"},
     {"name": "Q4u", "fn": q4u, "shards": [{}], "timeout": 120,
      "bound": "catalogue of %d small workflows whose file names differ only in Unicode normalisation form, letter case or a trailing blank (a byte-exact file system: they are different files)" % len(UNI)},
